@@ -911,7 +911,14 @@ fn do_extract(repo: &str, ex: &Extract, probes: bool, probe_ctr: &mut usize) -> 
             None => (fr.clone(), 0),
         };
         let mut ff = FragFinder { spec: &fr_norm, src: &text, loop_ctr: 0, skip, found: None };
-        ff.visit_block(&f.block);
+        if fr_norm == "body" {
+            // the whole function body (used when the wrapper re-types parameters with shim types)
+            let (bs, _) = rng(f.block.brace_token.span.open());
+            let (_, be) = rng(f.block.brace_token.span.close());
+            ff.found = Some((bs + 1, be - 1));
+        } else {
+            ff.visit_block(&f.block);
+        }
         let (fs, fe) = ff.found.ok_or(Fail(format!("fragment not found: {file} :: {item} :: {fr}")))?;
         src_start = start + fs;
         src_end = start + fe;
